@@ -62,7 +62,7 @@ def mutate(rng, data, nops=None, utf8_only=False, no_repeat=False):
         if not b:
             b = bytearray(b"fn x() {}\n")
         op = rng.choice(["bitflip", "truncate", "randrange", "multibyte", "multibyte_before_bang", "dup", "snippet", "snippet",
-                         "crlf", "delete", "multibyte_in_macro_line", "bad_utf8_tail", "bad_utf8_mid", "repeat_token"])
+                         "crlf", "delete", "multibyte_in_macro_line", "bad_utf8_tail", "bad_utf8_mid", "repeat_token", "lone_cr"])
         if utf8_only and op in ("bitflip", "randrange", "bad_utf8_tail", "bad_utf8_mid"):
             op = "snippet"
         if no_repeat and op == "repeat_token":
@@ -150,6 +150,13 @@ def mutate(rng, data, nops=None, utf8_only=False, no_repeat=False):
         elif op == "snippet":
             i = _boundary(b, rng.randrange(len(b) + 1))
             b[i:i] = (rng.choice(["\n", " ", ""]) + rng.choice(SNIPPETS) + rng.choice(["\n", " ", ""])).encode("utf-8")
+        elif op == "lone_cr":
+            # classic Mac line ends or one stray carriage return
+            if rng.random() < 0.5:
+                i = _boundary(b, rng.randrange(len(b) + 1))
+                b[i:i] = b"\r"
+            else:
+                b = bytearray(bytes(b).replace(b"\r\n", b"\n").replace(b"\n", b"\r", rng.choice([1, 3, 100000])))
         elif op == "crlf":
             b = bytearray(bytes(b).replace(b"\r\n", b"\n").replace(b"\n", b"\r\n"))
         elif op == "delete":
